@@ -277,3 +277,89 @@ Example C07_lex_example :
   length (mout (fst rt)) = 12%nat.
 Proof. exact lex_example. Qed.
 Print Assumptions C07_lex_example.
+
+(* ------------------------------------------------------------------ the TAG SYNTAX the serializer writes, read back by the real
+   tokenizer model (HtmlSer/SerLexTag.v, Inst/InstSerLexTag.v; reference semantics, default mode via TokIR/BulkSim.v).
+   render_start n attrs = less-than n { space name equals QUOT escape_spec true value QUOT } greater-than,
+   render_end n = less-than slash n greater-than, attribute names as printed (prefix ++ local name: xlink:href, xml:lang,
+   xmlns:xlink, ... - a colon is an ordinary name character for the tokenizer).
+   tag_name_ok: non-empty, first character a lower-case ASCII letter, no white space / slash / greater-than / NUL / CR /
+   upper-case ASCII letter; attr_name_ok: non-empty, additionally no equals sign, quotation mark, apostrophe, less-than.
+   DataOK: Data state, no pending character reference, reconsume / ignore_lf clear, no pending attribute. *)
+From HV Require Import HtmlSer.SerLexTag Inst.InstSerLexTag.
+
+(* what the byte-level serializer model writes for a tag IS the UTF-8 encoding of these characters (repaired
+   write_escaped loop, ASCII names, values given as code points) *)
+Theorem C07_tag_bytes_are_rendered_chars :
+  (forall v name attrs, fix_c2 v = true -> ascii (snd name) -> Forall (fun a => ascii (fst (printed_attr a))) attrs ->
+     start_tag v name (map byte_attr attrs) = encs (render_start (snd name) (map printed_attr attrs))) /\
+  (forall name, ascii (snd name) -> end_tag name = encs (render_end (snd name))).
+Proof. split; [exact start_tag_is_render|exact end_tag_is_render]. Qed.
+Print Assumptions C07_tag_bytes_are_rendered_chars.
+
+(* a start tag: from ANY machine in a clean Data state whose unread input starts with the rendered start tag, for a sink that
+   does not answer on the name: exactly one token TTag TStartTag n false attrs false (all attributes, in order, values
+   unescaped, no duplicate flag, not self-closing) up to [obs], back in a clean Data state with the rest unread *)
+Theorem C07_start_tag_lexes :
+  forall sg ss sn c1 sk n attrs rest (m : mach hstate (list N)),
+  DataOK m -> mq m = render_start n attrs ++ rest -> tag_name_ok n = true -> attrs_ok attrs ->
+  lookup_resp n (sk_resp sk) = None ->
+  exists j m', iter html_flavour html_table (sg, ss, sn) hent c1 sk j m = Some m' /\ DataOK m' /\ mq m' = rest /\
+               exists l kk, obs (mout m') = ocons (TTag TStartTag n false attrs false, l, kk) (obs (mout m)).
+Proof. exact start_tag_lex. Qed.
+Print Assumptions C07_start_tag_lexes.
+
+Theorem C07_end_tag_lexes :
+  forall sg ss sn c1 sk n rest (m : mach hstate (list N)),
+  DataOK m -> mq m = render_end n ++ rest -> tag_name_ok n = true -> lookup_resp n (sk_resp sk) = None ->
+  exists j m', iter html_flavour html_table (sg, ss, sn) hent c1 sk j m = Some m' /\ DataOK m' /\ mq m' = rest /\
+               exists l kk, obs (mout m') = ocons (TTag TEndTag n false [] false, l, kk) (obs (mout m)).
+Proof. exact end_tag_lex. Qed.
+Print Assumptions C07_end_tag_lexes.
+
+(* a serialized SEQUENCE of start tags, escaped texts and end tags lexes to the corresponding token sequence (up to [obs];
+   [deliv ts o o']: o' extends o by the tokens ts in order, adjacent texts merged), from any clean Data state, whatever
+   follows ([follow]: a non-empty text is followed by something).
+   _partial: this is the tokenizer half of "parse (serialize t) = t" for ordinary elements only - names on which the sink
+   does not switch the tokenizer state (so not script / style / title / textarea / plaintext ... after whose start tag the
+   tree builder answers RawData / Plaintext), no void-element, comment, doctype or processing-instruction syntax, a flat
+   sequence rather than the serialization of a tree, and the tokens -> tree direction (the tree builder) is not covered. *)
+Theorem C07_serialized_sequence_lexes_partial :
+  forall sg ss sn c1 sk its rest (m : mach hstate (list N)),
+  DataOK m -> mq m = render_items its ++ rest -> Forall (item_ok sk) its -> follow its rest ->
+  exists j m', iter html_flavour html_table (sg, ss, sn) hent c1 sk j m = Some m' /\ DataOK m' /\ mq m' = rest /\
+               deliv (items_tokens its) (obs (mout m)) (obs (mout m')).
+Proof. exact chain_lex. Qed.
+Print Assumptions C07_serialized_sequence_lexes_partial.
+
+(* whole runs: the sequence as the whole input, then end() - reference semantics, and the default mode *)
+Theorem C07_serialized_sequence_lexes_back_partial :
+  forall simd c1 sk last its, Forall (item_ok sk) its -> follow its [] ->
+  exists fuel0, forall fuel, (fuel0 <= fuel)%nat ->
+    let r := drive_flat html_flavour true html_table simd hent c1 sk fuel [] [render_items its]
+               (mkmach (init_cfg HData last false) [] [] 0%N) [] in
+    snd r = [SSuspend; SSuspend] /\ st (mc (fst r)) = HData /\
+    exists l' k' o, obs (mout (fst r)) = (TEof, l', k') :: o /\ deliv (items_tokens its) [] o.
+Proof. exact html_items_lex_back. Qed.
+Print Assumptions C07_serialized_sequence_lexes_back_partial.
+
+Theorem C07_serialized_sequence_lexes_back_default_mode_partial :
+  forall c1 sk last its fuel, Forall (item_ok sk) its -> follow its [] ->
+  let rf := drive_chunked html_flavour false html_table html_simd hent c1 sk fuel [] [render_items its]
+              (mkmach (init_cfg HData last false) [] [] 0%N) [] in
+  regular (snd rf) ->
+  snd rf = [SSuspend; SSuspend] /\ st (mc (fst rf)) = HData /\
+  exists l' k' o, obs (mout (fst rf)) = (TEof, l', k') :: o /\ deliv (items_tokens its) [] o.
+Proof. exact html_items_lex_back_default_mode. Qed.
+Print Assumptions C07_serialized_sequence_lexes_back_default_mode_partial.
+
+(* non-vacuity (a test, by computation, and the side conditions of the theorem on the same sequence):
+   div id = a LT b  xlink:href = x AMP y QUOT z ; text 1 LT 2 AMP 3 ; b ; text x ; end b ; end div  - 75 characters *)
+Example C07_tag_sequence_example :
+  (let r := drive_flat html_flavour true html_table html_simd hent (fun _ => None) lex_sk 400 [] [render_items tag_items]
+              (mkmach (init_cfg HData None false) [] [] 0%N) [] in
+   rev (map (fun e => fst (fst e)) (obs (mout (fst r)))) = items_tokens tag_items ++ [TEof] /\
+   length (render_items tag_items) = 75%nat /\ snd r = [SSuspend; SSuspend]) /\
+  Forall (item_ok lex_sk) tag_items /\ follow tag_items [].
+Proof. split; [exact tag_items_example|exact tag_items_ok]. Qed.
+Print Assumptions C07_tag_sequence_example.
